@@ -20,10 +20,32 @@ import (
 
 // fedWorld: entity resolvers answer from their inputs; a fault table makes
 // one lookup fail (error / panic) or a batch misbehave.
+// fedService runs { _service { sdl } } with introspection enabled or not and returns data and the number of errors.
+func fedService(enabled bool) (string, int) {
+	es := NewExecutableSchema(Config{Resolvers: &fedRoot{&fedWorld{fault: map[string]int{}}}})
+	ex := executor.New(es)
+	doc, errs := gqlparser.LoadQuery(es.Schema(), `{ s: _service { sdl } }`)
+	if errs != nil {
+		panic(errs)
+	}
+	opCtx := &graphql.OperationContext{
+		Doc: doc, Operation: doc.Operations[0], DisableIntrospection: !enabled,
+		RecoverFunc:            func(ctx context.Context, err any) error { return gqlerror.Errorf("internal system error") },
+		ResolverMiddleware:     func(ctx context.Context, next graphql.Resolver) (any, error) { return next(ctx) },
+		RootResolverMiddleware: func(ctx context.Context, next graphql.RootResolver) graphql.Marshaler { return next(ctx) },
+	}
+	ctx := graphql.StartOperationTrace(context.Background())
+	rh, ctx2 := ex.DispatchOperation(ctx, opCtx)
+	resp := rh(ctx2)
+	return string(resp.Data), len(resp.Errors)
+}
+
 type fedWorld struct {
 	mu       sync.Mutex
 	fault    map[string]int // key of a lookup -> 1 error, 2 panic
 	budget   int
+	onLookup func(n int) // called at the start of the n-th lookup (1-based)
+	lookups  int
 	recovers int
 	raised   int
 	gated    bool
@@ -52,6 +74,13 @@ var errFed = errors.New("entity lookup failed")
 // context like real data loaders do: a lookup whose context is already
 // cancelled (which a failure of another representation must not cause) fails.
 func (w *fedWorld) apply(ctx context.Context, key string) error {
+	if w.onLookup != nil {
+		w.mu.Lock()
+		w.lookups++
+		n := w.lookups
+		w.mu.Unlock()
+		w.onLookup(n)
+	}
 	if w.gated {
 		zzsym.Gate(key)
 	}
@@ -240,6 +269,11 @@ type fedResult struct {
 }
 
 func fedRun(w *fedWorld, reps []any) fedResult {
+	return fedRunCtx(context.Background(), w, reps)
+}
+
+// fedRunCtx: like fedRun under a caller-supplied request context.
+func fedRunCtx(parent context.Context, w *fedWorld, reps []any) fedResult {
 	es := NewExecutableSchema(Config{Resolvers: &fedRoot{w}})
 	ex := executor.New(es)
 	rec := func(ctx context.Context, err any) error {
@@ -255,7 +289,7 @@ func fedRun(w *fedWorld, reps []any) fedResult {
 		ResolverMiddleware:     func(ctx context.Context, next graphql.Resolver) (any, error) { return next(ctx) },
 		RootResolverMiddleware: func(ctx context.Context, next graphql.RootResolver) graphql.Marshaler { return next(ctx) },
 	}
-	ctx := graphql.StartOperationTrace(context.Background())
+	ctx := graphql.StartOperationTrace(parent)
 	rh, ctx2 := ex.DispatchOperation(ctx, opCtx)
 	resp := rh(ctx2)
 	var res fedResult
